@@ -6,7 +6,9 @@ TLC:    exhaustive check of the bounded instance (blueprints x exogenous forms x
         behaviour (= one configuration and its outcome) is emitted
 replay: every configuration is rendered as an equation block and run on the real
         sfc_models.equation_solver.EquationSolver (MaxTime as a line of the block, or set on the
-        solver before ParseString, or absent); a seeded sample is also run
+        solver before ParseString, or absent, or - "late" - a different value assigned to
+        solver.MaxTime after EquationSolver(<block>) / after ParseString(<block>), which must have
+        no effect on the solve); a seeded sample is also run
           * with seeded random float values in place of the small integers ("float dress"),
           * through the model API (Model / Country / Sector, AddVariable, SetExogenous /
             AddExogenous, AddInitialCondition, MaxTime, main(), GetTimeSeries).
@@ -42,8 +44,16 @@ MAX_HANGS = 25                          # more than this: the check gives up (ex
 # supplied data
 # --------------------------------------------------------------------------------------
 
+LATE = ('late_ctor', 'late_parse')     # MaxTime line in the block, solver.MaxTime = cfg['late'] after parsing
+
+
 def horizon_of(cfg):
+    """the horizon the solve must honour (a late assignment on the solver does not move it)"""
     return 0 if cfg['where'] == 'default' else cfg['horizon']
+
+
+def in_block(cfg):
+    return cfg['where'] == 'block' or cfg['where'] in LATE
 
 
 def _rand_float(rng):
@@ -143,7 +153,7 @@ def render_block(cfg, sup):
     h = cfg['horizon']
     lines = []
     maxtime = 'MaxTime = %d' % h
-    top = cfg['where'] == 'block' and h % 2 == 1
+    top = in_block(cfg) and h % 2 == 1
     if top:
         lines.append(maxtime)
     for v in cfg['vars']:
@@ -155,7 +165,7 @@ def render_block(cfg, sup):
     for v in cfg['vars']:
         if v['cls'] == 'exo':
             lines.append('%s = %s' % (v['name'], exo_text(cfg, sup)))
-    if cfg['where'] == 'block' and not top:
+    if in_block(cfg) and not top:
         lines.append(maxtime)
     return '\n'.join(lines)
 
@@ -255,26 +265,36 @@ def execute_block(cfg, dress, fseed):
     from sfc_models.equation_solver import EquationSolver
     sup = supplied_values(cfg, dress, fseed)
     text = render_block(cfg, sup)
+    if cfg['where'] in LATE:
+        text_shown = text + '\n>>> after %s: solver.MaxTime = %d' % (
+            'EquationSolver(block)' if cfg['where'] == 'late_ctor' else 'ParseString(block)', cfg['late'])
+    else:
+        text_shown = text
     pe = {'ev': 'Parse', 'cfg': cfg, 'api': 'block', 'dress': dress, 'ok': True, 'exc': '',
           'classes': [], 'maxtime': 0}
     try:
-        solver = EquationSolver(run_equation_reduction=bool(cfg['reduce']))
+        if cfg['where'] == 'late_ctor':
+            solver = EquationSolver(text, run_equation_reduction=bool(cfg['reduce']))
+        else:
+            solver = EquationSolver(run_equation_reduction=bool(cfg['reduce']))
+            if cfg['where'] == 'solver':
+                solver.MaxTime = cfg['horizon']
+            solver.ParseString(text)
         solver.ParameterSolveInitialSteadyState = False
-        if cfg['where'] == 'solver':
-            solver.MaxTime = cfg['horizon']
-        solver.ParseString(text)
+        if cfg['where'] in LATE:
+            solver.MaxTime = cfg['late']        # too late: the block is parsed already
         pe['classes'], pe['maxtime'] = observe_parser(solver.Parser, '')
     except Exception as e:
         pe.update(ok=False, exc=type(e).__name__)
-        return [pe, _no_solve(type(e).__name__, dress)], text
+        return [pe, _no_solve(type(e).__name__, dress)], text_shown
     se = {'ev': 'Solve', 'dress': dress, 'ok': True, 'exc': '', 'ts_empty': False, 'taxis': False, 'obs': []}
     try:
         solver.SolveEquation()
     except Exception as e:
         se.update(ok=False, exc=type(e).__name__, ts_empty=(len(solver.TimeSeries) == 0))
-        return [pe, se], text
+        return [pe, se], text_shown
     se['obs'], se['taxis'] = observe_series(cfg, sup, solver.TimeSeries, '')
-    return [pe, se], text
+    return [pe, se], text_shown
 
 
 def execute_model(cfg, dress, fseed):
@@ -447,6 +467,8 @@ def signature(clause, case, events):
     h = horizon_of(cfg)
     obs = events[-1].get('obs', [])
     head = case['api'] + ':'
+    if cfg['where'] in LATE:
+        head += 'maxtime-assigned-after-parse-%s:' % ('larger' if cfg['late'] > cfg['horizon'] else 'smaller')
     if clause == 'C10_Lengths':
         bad = sorted({var_class(cfg, o['name']) for o in obs if o['len'] != h + 1})
         seen = {o['name'] for o in obs}
@@ -538,7 +560,7 @@ def run(rep):
     cfgs = ['MC_Horizon_quick.cfg'] if rep.tier == 'quick' else ['MC_Horizon_quick.cfg', 'MC_Horizon_thorough.cfg']
     rep.rule = ('configurations = all initial states of the bounded Horizon instance (4 blueprints x exogenous form '
                 'and length x initial condition on none / each non-exogenous variable / all, as float, int or '
-                'undefined name x horizon x MaxTime in block / on solver / absent x reduction on/off), each solved by '
+                'undefined name x horizon x MaxTime in block / on solver before parsing / absent / in block and a larger or smaller value assigned to the solver after EquationSolver(block) or ParseString(block) x reduction on/off), each solved by '
                 'TLC and emitted; every one is replayed at block level with its integer values, a seeded sample again '
                 'with random float values and through the model API; distinct = distinct (configuration, api, dress, '
                 'float seed); non-trivial = horizon >= 1, or an initial condition, or a rejected input form')
